@@ -1477,6 +1477,7 @@ theorem setupRefs_nil {c : Cfg} {t : Nat} (watch : List (List (Nat × List Nat))
 def finish (c : Cfg) (ds : List PDecl) (w : World) (tg : Target) : World :=
   { w with tgts := w.tgts ++ [tg], watch := setupRefs c w.tgts.length (allDeps ds tg.refs) w.watch }
 
+set_option linter.unusedSimpArgs false in
 /-- one keyword of the constructor = one later assignment on the finished object -/
 theorem late_step {c : Cfg} {ds : List PDecl} {w : World} {tg : Target} {k : Nat} {rhs : Rhs} {d : PDecl} {v : Val}
     {rl : Relink}
